@@ -176,6 +176,29 @@ CHECKS = {
         note='Bounded: about 2000 configurations; categories plotted in sorted-label order; elements are all combinations of positions.',
         technique='TLA+ spec (exact containment) + TLC enumeration + replay into roi_to_subset_state',
         design='7/C09'),
+    'C02': dict(
+        text='Session.tla: TLC enumerates session compositions - every elementary selection kind the harness can build (found by '
+             'introspection of the tree under test) alone and nested under not / and / many-way or, every link helper class incl. the '
+             'celestial ones, a key join - followed by one or two SaveLoad steps, and checks SaveLoad is the identity on the abstract '
+             'state; each composition is built from real objects, written by GlueSerializer and restored by GlueUnSerializer, and the '
+             'observable projection (labels, component order, values, world values, attributes readable through links with their '
+             'values, mask of every group on every dataset, styles, metadata) compared before/after each SaveLoad (idempotence = the '
+             'second one). Failing loudly at save time is allowed and counted; failing at load time is a violation.',
+        note='Bounded: one group and one link helper per session (two groups and pairs of kinds in the thorough tier), 1-d and 2-d '
+             'datasets, include_data=True (saving by reference is in C19). SubsetState classes without a factory are listed in the evidence.',
+        technique='TLA+ spec + TLC (compositions) + replay through the real serializer with a behavioural projection',
+        design='7/C02'),
+    'C12': dict(
+        text='Versions.tla: (a) VersionedDict as a state machine - every sequence of <= 5 Set/Get/GetVersion/Contains/Delete calls over 2 '
+             'keys and versions 0..3 is replayed into the real class, comparing results and the whole stored state after every call; '
+             '(b) the saver/loader registries and state_path_patches.txt of the current tree are extracted and handed to TLC as '
+             'constants: versions consecutive from 1, a loader for every saver version, the rename walk terminates, in-package targets '
+             'import, no entry captures a concrete class this package still defines and writes; (c) every (Data version, '
+             'DataCollection version) pair is written with that version\'s saver and loaded by the normal unserializer.',
+        note='Equivalence of old versions compared on labels, component order, values, style (Data >= 2), meta (Data >= 5), groups and '
+             'masks (DataCollection >= 2). One open known finding (KF-C12-1, four captured class paths).',
+        technique='TLA+ spec + TLC over constants generated from the tree + replay into VersionedDict / pinned-version serializer',
+        design='7/C12'),
 }
 
 NOT_APPLICABLE = {}
